@@ -21,7 +21,13 @@ pub fn gen(r: &mut Rng) -> Value {
             ":Übung", ":übung", "out = Écho hi", "out = écho hi", "Ärger = set 1", "ärger = set 1", "ǅ = set 1", "x = set É"];
         let n = 1 + r.below(3);
         let lines: Vec<String> = (0..n).map(|_| r.pick(&shapes).to_string()).collect();
-        return json!({"script": lines.join("\n"), "mode": 3});
+        // some linted files pull in a file that sits next to them (clean, or with an upper-case output)
+        let inc = r.below(4);
+        let mut lines = lines;
+        if inc == 1 || inc == 2 {
+            lines.insert(r.below(lines.len() + 1), "!include_files ./inc.ds".to_string());
+        }
+        return json!({"script": lines.join("\n"), "mode": 3, "inc": inc});
     }
     if r.chance(1, 6) {
         // file form followed by extra words (script arguments)
@@ -42,7 +48,14 @@ pub fn run(input: &Value) -> Option<Value> {
     std::fs::create_dir_all(&dir).ok()?;
     let file = dir.join("s.ds");
     std::fs::write(&file, script).ok()?;
+    match input["inc"].as_u64() {
+        Some(1) => std::fs::write(dir.join("inc.ds"), "fine = set 1\n").ok()?,
+        Some(2) => std::fs::write(dir.join("inc.ds"), "fine = set 1\nNotFine = set 2\n").ok()?,
+        _ => {}
+    }
     let fpath = file.to_string_lossy().to_string();
+    // what the library decides for this FILE (includes resolved against the file's own directory)
+    let lib_parse = duckscript::parser::parse_file(&fpath);
     let out = match mode {
         0 => Proc::new(&bin).arg(&fpath).output(),
         1 => Proc::new(&bin).arg("-e").arg(script).output(),
@@ -56,7 +69,7 @@ pub fn run(input: &Value) -> Option<Value> {
     let ok_status = out.status.success();
     let expect_ok = if mode == 3 {
         // accepted exactly when it parses and every label, command and output is lower-case
-        match duckscript::parser::parse_text(script) {
+        match lib_parse {
             Err(_) => false,
             Ok(instrs) => instrs.iter().all(|i| match &i.instruction_type {
                 duckscript::types::instruction::InstructionType::Script(s) => {
